@@ -160,7 +160,15 @@ m("C03", "other",
   "C03_single_loss_recovery — any one File Data PDU but the last never arrives: later data is stored behind a "
   "zero-filled hole, the EOF is acknowledged, the next call queues exactly one NAK with scope (0,|F|) and the "
   "single request (a,b), the retransmission fills the hole, the checksum is verified, one Finished PDU, idle, "
-  "file byte-identical; C03_tail_loss_recovery — everything from an offset on is missing at the EOF. The "
+  "file byte-identical; C03_tail_loss_recovery — everything from an offset on is missing at the EOF. "
+  "BOTH MODELS COMPOSED: C03_end_to_end_single_loss — the sender model's whole run (Metadata, j+2+r tiles, "
+  "EOF), the link loses tile j (any but the last), the receiver model takes the rest, acknowledges the EOF and "
+  "requests exactly the lost range; the sender model (waiting for Finished) answers the NAK with exactly one "
+  "File Data PDU, equal to the lost one (C03_sender_serves_request); the receiver completes and verifies; the "
+  "sender, in its retransmission step, resumes and acknowledges the Finished PDU "
+  "(C03_sender_finished_after_retransmission); both idle, no call raises, file byte-identical, one successful "
+  "Transaction-Finished indication on each side, no fault callback; a concrete instance shows the hypotheses "
+  "are satisfiable. The "
   "liveness claim for arbitrary <= K fault schedules (recovery within the limits) is NOT a theorem: it is "
   "explored on implementation and model — exhaustively for every schedule of one or two dropped PDUs per "
   "configuration, sampled for <= 3 mixed faults.",
@@ -168,7 +176,8 @@ m("C03", "other",
   "+ list lemmas on the file with a hole) + exhaustive <=2-drop and sampled fault-schedule exploration "
   "(general liveness not proved)", "§6 C03, §11",
   ["liveness under an adversarial link with K > 1 faults / duplication / reordering is explored, not proved "
-   "(DESIGN.md §6 C03 stage 4); the proved recovery runs are receiver-side, deferred NAK mode"])
+   "(DESIGN.md §6 C03 stage 4); the proved recovery runs are for one lost File Data PDU, deferred NAK mode, "
+   "one PDU per call"])
 m("C04", "proof",
   "silent-peer scenarios for the three retry procedures with limits 1..4 and intervals 500..2000 ms: calls "
   "one ms before each expiry (nothing may happen), exactly at it; the awaited ACK after j < N expiries; exact "
